@@ -15,7 +15,12 @@ Inductive stepx :=
 | SRing (v : list Z) (s e : nat) (f : bool) (n : nat)       (* circular buffer: values, start, end, full, size *)
 (* aliasing judgement (as in C07.Check): every slice returned by Values() read again at the end of the trace must
    still hold the recorded result of that call *)
-| SKept (now : list (list Z)).
+| SKept (now : list (list Z))
+(* a user comparator that reads the heap / priority queue at every invocation: Size() as seen inside the comparator
+   during the call just made. The unmodified code adds (Push) or removes (Pop) the element first and restores the
+   heap order afterwards, and Values() works on temporary heaps: every comparator call sees the size the container
+   has after the call. *)
+| SCmpSizes (sizes : list Z).
 Record case := { c_kind : kind; c_steps : list stepx }.
 
 (* short forms of the most frequent steps (the case files are mostly these) *)
@@ -80,6 +85,7 @@ Definition check_step (k : kind) (st : cstate) (x : stepx) : cstate * nat :=
     | None => ((m', l, kept), 2)
     end
   | SKept now => (st, kind_of true (list_eqb zlist_eqb now (rev kept)))
+  | SCmpSizes sizes => (st, kind_of true (forallb (fun z => (z =? Z.of_nat (length l))%Z) sizes))
   | _ => (st, kind_of (shape_ok m x) true)
   end.
 
